@@ -64,6 +64,42 @@ type MCluster struct {
 	Direct   bool     `json:"direct"` // nsqadmin is given the nsqds directly (no lookupd)
 	Lookupds []string `json:"lookupds"` // health of each lookupd
 	Nodes    []MNode  `json:"nodes"`
+	// Knows[li] is the ordered list of node indices registered with lookupd li (an nsqd may
+	// be registered with a subset of the lookupds); nil = every lookupd knows every node
+	Knows [][]int `json:"knows,omitempty"`
+}
+
+// known returns the node indices lookupd li reports, in its answer order.
+func (c MCluster) known(li int) []int {
+	if c.Knows != nil && li < len(c.Knows) {
+		return c.Knows[li]
+	}
+	var all []int
+	for i := range c.Nodes {
+		all = append(all, i)
+	}
+	return all
+}
+
+// visible returns the nodes the view can know about: all of them in direct mode, otherwise
+// those registered with at least one lookupd.
+func (c MCluster) visible() []MNode {
+	if c.Direct || c.Knows == nil {
+		return c.Nodes
+	}
+	seen := map[int]bool{}
+	for li := range c.Lookupds {
+		for _, i := range c.known(li) {
+			seen[i] = true
+		}
+	}
+	var out []MNode
+	for i, n := range c.Nodes {
+		if seen[i] {
+			out = append(out, n)
+		}
+	}
+	return out
 }
 
 func (c MCluster) String() string {
@@ -79,7 +115,11 @@ func (c MCluster) String() string {
 		}
 		ns = append(ns, fmt.Sprintf("%s[%s]{%s}", n.Host, n.Health, strings.Join(ts, " ")))
 	}
-	return fmt.Sprintf("direct=%v lookupds=%v nodes=%s", c.Direct, c.Lookupds, strings.Join(ns, " "))
+	k := ""
+	if c.Knows != nil {
+		k = fmt.Sprintf(" knows=%v", c.Knows)
+	}
+	return fmt.Sprintf("direct=%v lookupds=%v%s nodes=%s", c.Direct, c.Lookupds, k, strings.Join(ns, " "))
 }
 
 type reqLog struct {
@@ -268,7 +308,8 @@ func newStubs() *stubs {
 			switch r.URL.Path {
 			case "/topics":
 				set := map[string]bool{}
-				for _, n := range c.Nodes {
+				for _, i := range c.known(li) {
+					n := c.Nodes[i]
 					for _, t := range n.Topics {
 						set[t.Name] = true
 					}
@@ -281,15 +322,16 @@ func newStubs() *stubs {
 				json.NewEncoder(w).Encode(map[string]interface{}{"topics": ts})
 			case "/nodes":
 				ps := []interface{}{}
-				for i, n := range c.Nodes {
-					ps = append(ps, prod(i, n, true))
+				for _, i := range c.known(li) {
+					ps = append(ps, prod(i, c.Nodes[i], true))
 				}
 				json.NewEncoder(w).Encode(map[string]interface{}{"producers": ps})
 			case "/lookup":
 				topic := r.URL.Query().Get("topic")
 				var ps []interface{}
 				chans := map[string]bool{}
-				for i, n := range c.Nodes {
+				for _, i := range c.known(li) {
+					n := c.Nodes[i]
 					for _, t := range n.Topics {
 						if t.Name == topic {
 							ps = append(ps, prod(i, n, false))
@@ -608,6 +650,7 @@ func RunView(c MCluster) vx.Out {
 	}
 	s := startStubs(c)
 	defer s.close()
+	vis := c.visible()
 	h, err := newAdmin(c, s, nil)
 	if err != nil {
 		return vx.Out{Obs: "admin: " + err.Error(), Viol: []vx.Found{{Sig: "INFRA nsqadmin New", Detail: err.Error()}}}
@@ -630,7 +673,7 @@ func RunView(c MCluster) vx.Out {
 			anyInconsistent = true
 		}
 	}
-	for _, n := range c.Nodes {
+	for _, n := range vis {
 		if n.Health == "inconsistent" || n.Health == "null" {
 			anyInconsistent = true
 		}
@@ -656,18 +699,18 @@ func RunView(c MCluster) vx.Out {
 	// sources of truth
 	directoryDown := (!c.Direct && okLk+softLk == 0)
 	nodesDown := 0
-	for _, n := range c.Nodes {
+	for _, n := range vis {
 		if hard(n.Health) {
 			nodesDown++
 		}
 	}
-	if c.Direct && nodesDown == len(c.Nodes) {
+	if c.Direct && nodesDown == len(vis) {
 		directoryDown = true
 	}
 	// ---- /api/topics
 	code, m := get("/api/topics")
 	wantTopics := map[string]bool{}
-	for _, n := range c.Nodes {
+	for _, n := range vis {
 		if c.Direct && !healthyNode(n) {
 			continue
 		}
@@ -721,7 +764,7 @@ func RunView(c MCluster) vx.Out {
 		bad("C18 view failed although an upstream answers", "/api/nodes answered %d", code)
 	} else if !anyInconsistent {
 		want := 0
-		for _, n := range c.Nodes {
+		for _, n := range vis {
 			if !c.Direct || healthyNode(n) {
 				want++
 			}
@@ -738,7 +781,7 @@ func RunView(c MCluster) vx.Out {
 			var depth, msgs int64
 			healthyHolders, failingHolders := 0, 0
 			chanSum := map[string]*MChannel{}
-			for _, n := range c.Nodes {
+			for _, n := range vis {
 				for _, mt := range n.Topics {
 					if mt.Name != t {
 						continue
@@ -832,7 +875,7 @@ func RunView(c MCluster) vx.Out {
 		code, m = get("/api/counter")
 		if code == 200 && !anyInconsistent && nodesDown == 0 {
 			var want int64
-			for _, n := range c.Nodes {
+			for _, n := range vis {
 				for _, t := range n.Topics {
 					for _, ch := range t.Channels {
 						want += ch.Msgs
